@@ -30,18 +30,32 @@ type c04Cfg struct {
 	MCT            bool
 	TW, TH         int  // 0 = single tile
 	SignExtendCont bool // diagnostic only: write signed P<8 samples as 8-bit two's complement
+	// rate allocation (C19 round 6): zero values = encoder defaults
+	Ratio  float64   // TargetRatio
+	PCRD   bool      // UsePCRDOpt
+	Rates  []float64 // LayerRates
+	Append bool      // AppendLosslessLayer
 }
 
 func (k c04Cfg) String() string {
-	return fmt.Sprintf("w=%d h=%d c=%d p=%d s=%v lv=%d cb=%dx%d pr=%dx%d prog=%d ly=%d mct=%v tile=%dx%d",
+	s := fmt.Sprintf("w=%d h=%d c=%d p=%d s=%v lv=%d cb=%dx%d pr=%dx%d prog=%d ly=%d mct=%v tile=%dx%d",
 		k.W, k.H, k.C, k.P, k.Signed, k.Levels, k.CBW, k.CBH, k.PW, k.PH, k.Prog, k.Layers, k.MCT, k.TW, k.TH)
+	if k.rateSet() {
+		s += fmt.Sprintf(" ratio=%g pcrd=%v rates=%v append=%v", k.Ratio, k.PCRD, k.Rates, k.Append)
+	}
+	return s
 }
+
+func (k c04Cfg) rateSet() bool { return k.Ratio > 0 || k.PCRD || len(k.Rates) > 0 || k.Append }
 
 func (k c04Cfg) input(pix []byte) map[string]any {
 	m := map[string]any{"width": k.W, "height": k.H, "components": k.C, "bitDepth": k.P, "signed": k.Signed,
 		"numLevels": k.Levels, "codeBlockWidth": k.CBW, "codeBlockHeight": k.CBH, "precinctWidth": k.PW,
 		"precinctHeight": k.PH, "progression": k.Prog, "numLayers": k.Layers, "enableMCT": k.MCT,
 		"tileWidth": k.TW, "tileHeight": k.TH}
+	if k.rateSet() {
+		m["targetRatio"], m["usePCRDOpt"], m["layerRates"], m["appendLosslessLayer"] = k.Ratio, k.PCRD, k.Rates, k.Append
+	}
 	if len(pix) <= 40000 {
 		m["pixels_hex"] = hx.Hex(pix)
 	} else {
@@ -60,6 +74,9 @@ func (k c04Cfg) params() *jpeg2000.EncodeParams {
 	p.EnableMCT = k.MCT
 	p.TileWidth, p.TileHeight = k.TW, k.TH
 	p.Lossless = true
+	if k.rateSet() {
+		p.TargetRatio, p.UsePCRDOpt, p.LayerRates, p.AppendLosslessLayer = k.Ratio, k.PCRD, k.Rates, k.Append
+	}
 	return p
 }
 
